@@ -1,8 +1,8 @@
-(* Tied_sel.v — the regenerated decision expressions of /repo (gen/Exprs_sel.v, written by harness/gen_exprs.py from the Python
+(* Tied_sel.v — the regenerated decision expressions of /repo (gen/Exprs_sel TieTac.v, written by harness/gen_exprs.py from the Python
    AST on every run) are the expressions the hand-written model uses.  Every lemma is an obligation of the tie: when an
    expression of the code changes, the generated file changes with it and the lemma stops compiling even if no sampled input
    tells old and new behaviour apart.  Statements: the model's definition equals the translated expression, for all arguments. *)
-From Aldy Require Import Base Consts Select Exprs_sel Consts_here.
+From Aldy Require Import Base Consts Select Exprs_sel Consts_here TieTac.
 Import List.
 Open Scope Q_scope.
 
@@ -10,10 +10,10 @@ Open Scope Q_scope.
 (* m.score - min - profile.gap < SOLUTION_PRECISION  (major and minor filters) *)
 Lemma sel_major_keep_tied : forall (A : Type) (score : A -> Q) (c : consts) gap mn a,
   within score (c_solution_precision c) gap mn a = sel_major_keep (score a) mn gap (c_solver_precision c) (c_solution_precision c).
-Proof. reflexivity. Qed.
+Proof. first [reflexivity | intros; unfold within, sel_major_keep; tie_sem]. Qed.
 Lemma sel_minor_keep_tied : forall (A : Type) (score : A -> Q) (c : consts) gap mn a,
   within score (c_solution_precision c) gap mn a = sel_minor_keep (score a) mn gap (c_solver_precision c) (c_solution_precision c).
-Proof. reflexivity. Qed.
+Proof. first [reflexivity | intros; unfold within, sel_minor_keep; tie_sem]. Qed.
 
 (* s.score += cn_sol.score - min_cn_score *)
 Lemma sel_major_carry_tied : forall min_cn cns j, In j (major_candidates min_cn cns) ->
